@@ -112,11 +112,11 @@ def run(ctx, pid):
                 "met on random walks of 40 bytes over JUMPDEST/PUSH1..PUSH32/others; per code: the analysis at every "
                 "offset and the JUMP/JUMPI step for every target of the palette; distinct = distinct codes x kinds")
     n = 5 if ctx.quick else 6
-    procs, walks = (2, 25) if ctx.quick else (5, 300)     # random walks: processes x walks each
+    procs, walks = (2, 25) if ctx.quick else (4, 375)     # random walks: processes x walks each
     binary = vf.cargo_build("jumpdest")
     consts = dict(Alphabet=vf.tla_set(ALPHABET), MaxLen=n, Weighted=WEIGHTED)
     ex = vf.tlc(ctx, "JumpDest", vf.cfg(consts, view=None, invariants=INV, properties=PROPS),
-                name="jumpdest_all", workers=6, timeout=1500, xss="64m", xmx="4g", env=GC)
+                name="jumpdest_all", workers=4, timeout=1500, xss="64m", xmx="4g", env=GC)
     if ex.distinct != sum(len(ALPHABET) ** k for k in range(n + 1)):
         raise vf.ToolError("TLC enumerated %d codes, expected all of length <= %d" % (ex.distinct, n))
     replay(ctx, res, [ex], "jumpdest_all", binary, evm_every=2 if ctx.quick else 4)
